@@ -154,3 +154,54 @@ def dag_out(shape):
     d, out = r if isinstance(r, tuple) else (r, len(r) - 1)
     vol = [i for i, (name, _, op) in enumerate(d) if name and not op.startswith(("OSucc", "OConst"))]
     return d, out, vol
+
+
+def predict_demand(case):
+    """The re-executions the fault plan DEMANDS of every job under the canonical rollback of the model (Recovery/Model.v
+    `ensure`: the failed job and, recursively, the producers of its unavailable inputs), computed without StreamFlow:
+    {job name: number of rollbacks that re-execute it}.  This is the `demand` of C16_completes_partial
+    (Recovery/Budget.v); the budget hypothesis of that theorem is  1 + demand[j] <= limit  for every job j.
+    Jobs are taken in topological order, one at a time (the generator puts no faults on concurrent jobs when data can be
+    lost); a job's phases fail in the order schedule, transfer, execute, each for its first `count` attempts; a job whose
+    input is unavailable when it starts fails organically once (in its transfer)."""
+    shape = case["shape"]
+    d, _out, vol = dag_out(shape)
+    volatile = set(vol) if shape["type"] in ("file", "file2") else set()
+    idx = {name: i for i, (name, _, _) in enumerate(d) if name}
+    plan = {}
+    for st, tag, phase, kind, cnt in case.get("faults", []):
+        plan.setdefault(f"{st}/{tag}", []).append([("schedule", "transfer", "execute").index(phase), kind, cnt])
+    avail = {i for i, (name, _, _) in enumerate(d) if name is None}
+    demand = {name: 0 for name in idx}
+
+    def closure(i, acc):
+        for k in d[i][1]:
+            if k not in avail and k not in acc:
+                closure(k, acc)
+        if d[i][0] is not None and i not in acc:
+            acc.append(i)
+        return acc
+
+    def rollback(i):
+        for j in closure(i, []):
+            demand[d[j][0]] += 1
+            if j != i:
+                avail.add(j)
+
+    for i, (name, ins, _op) in enumerate(d):
+        if name is None:
+            continue
+        faults = sorted(plan.get(name, []))
+        for f in faults:
+            while f[2] > 0:
+                if any(k not in avail for k in ins):        # organic failure first: an input is gone
+                    rollback(i)
+                    continue
+                f[2] -= 1
+                if f[1] == "failstop" or (f[1] == "partial" and shape["type"] == "file2"):
+                    avail.difference_update(volatile)
+                rollback(i)
+        while any(k not in avail for k in ins):
+            rollback(i)
+        avail.add(i)
+    return demand
